@@ -212,6 +212,18 @@ pub fn gen_arrangement(src: &mut Src) -> Arrangement {
             _ => {}
         }
     }
+    // more appended draws: a construct the analyser does not support (reported, with a
+    // placeholder in the graph), at any include depth
+    for (i, f) in files.iter_mut().enumerate() {
+        if f.has_syntax_fault {
+            continue;
+        }
+        match src.below(10) {
+            1 => f.body.push_str(&format!("bool un{i} = 1 < 2;\n")),
+            2 => f.body.push_str(&format!("array[int, 3] ua{i};\n")),
+            _ => {}
+        }
+    }
     Arrangement { n_dirs, files, main, search, env, entry, decoy_stdgates }
 }
 
@@ -318,6 +330,8 @@ struct Run {
     symbols: Vec<(String, String)>,
     kinds: Vec<String>,
     any_syntax: bool,
+    any_semantic: bool,
+    any_errors: bool,
     tagged: Vec<(PathBuf, Vec<(String, usize, usize)>)>,
     included_paths: Vec<PathBuf>,
     span_fails: Vec<(String, String)>,
@@ -396,6 +410,8 @@ fn run_impl(a: &Arrangement, l: &Laid) -> Result<Run, PanicInfo> {
                         symbols: res.symbol_table().verif_symbols().iter().map(|s| (s.name().to_string(), format!("{:?}", s.symbol_type()))).collect(),
                         kinds: kinds.into_iter().map(|k| k.0).collect(),
                         any_syntax: res.any_syntax_errors(),
+                        any_semantic: res.any_semantic_errors(),
+                        any_errors: res.any_errors(),
                         tagged,
                         included_paths: inc.iter().map(|f| f.file_path().to_path_buf()).collect(),
                         span_fails,
@@ -447,6 +463,9 @@ pub fn check_arrangement(a: &Arrangement, out: &mut Vec<Failure>) -> (bool, bool
     match (got, reference) {
         (Err(p), _) => {
             out.push(Failure::new(format!("C18:{}", panic_key(&p)), detail(format!("{}:{} {}", p.file, p.line, p.msg), "no panic".into())));
+            if !syntax_fault {
+                out.push(Failure::new(format!("C03:include:{}", panic_key(&p)), detail(format!("{}:{} {}", p.file, p.line, p.msg), "no panic".into())));
+            }
         }
         (Ok(_), Err(_)) => {}
         (Ok(g), Ok(r)) => {
@@ -492,6 +511,16 @@ pub fn check_arrangement(a: &Arrangement, out: &mut Vec<Failure>) -> (bool, bool
                 // in the inlined reference an include below global scope still names a file
                 if norm(&g.kinds) != norm(&rkinds) {
                     out.push(Failure::new("C18:diagnostics-differ-from-textual-inclusion", detail(format!("{:?}", norm(&g.kinds)), format!("{:?}", norm(&rkinds)))));
+                }
+                // C03: a placeholder in the graph stands for a construct the analyser does not
+                // support; it is reported as a diagnostic wherever the construct was written
+                let n_placeholders: usize = g.stmts.iter().map(|s| s.matches("NullExpr").count() + s.matches("NullStmt").count()).sum();
+                if n_placeholders > 0 && g.kinds.is_empty() {
+                    out.push(Failure::new("C03:include:unsupported-construct-without-diagnostic", detail(format!("{n_placeholders} placeholders in the graph, no semantic diagnostic in any list"), "at least one diagnostic".into())));
+                }
+                // the summary predicates agree with the lists (as they do for the flat program)
+                if g.any_semantic == g.kinds.is_empty() || g.any_errors != (g.any_semantic || g.any_syntax) {
+                    out.push(Failure::new("C18:summary-predicates-disagree-with-the-diagnostic-lists", detail(format!("any_semantic_errors()={} any_errors()={} with {} semantic diagnostics in all lists", g.any_semantic, g.any_errors, g.kinds.len()), format!("any_semantic_errors()={} as for the textually included program", r.any_semantic_errors()))));
                 }
                 // which files were read: exactly those of the reference resolution, in order
                 let canon: Vec<PathBuf> = files_read.iter().map(|p| std::fs::canonicalize(p).unwrap_or(p.clone())).collect();
@@ -623,6 +652,109 @@ pub fn run_c11_includes(ctx: &RunCtx) {
     let n = ctx.pick(3_000u64, 100_000u64);
     run_arrangements(ctx, &["C11:"], "include-arrangement", n);
     fixed_cases(ctx, "C11");
+    cleanup_work();
+}
+
+/// One program of the C03 include-chain family: `construct` sits in the file at `depth` of a
+/// chain of otherwise clean files (depth 0 = the main program).
+pub fn check_c03_chain(construct: &str, depth: usize, tail: bool, out: &mut Vec<Failure>) -> bool {
+    let mut files: Vec<(String, String)> = vec![];
+    let mut main = String::new();
+    for d in 0..=depth {
+        let mut body = String::new();
+        if d < depth {
+            body.push_str(&format!("include \"chain{}.inc\";\n", d + 1));
+        }
+        body.push_str(&format!("int clean{d} = {d};\n"));
+        if d == depth {
+            if tail {
+                body.push_str(construct);
+                body.push('\n');
+            } else {
+                body = format!("{construct}\n{body}");
+            }
+        }
+        if d == 0 {
+            main = body;
+        } else {
+            files.push((format!("chain{d}.inc"), body));
+        }
+    }
+    let flat: String = {
+        // the textually included program (innermost first)
+        let mut t = String::new();
+        for d in (0..=depth).rev() {
+            let body = if d == 0 { main.clone() } else { files[d - 1].1.clone() };
+            let own: String = body.lines().filter(|l| !l.starts_with("include \"chain")).map(|l| format!("{l}\n")).collect();
+            t = if body.starts_with("include \"chain") { format!("{t}{own}") } else { format!("{own}{t}") };
+        }
+        t
+    };
+    if !crate::pipeline::clean_parse(&flat) {
+        return false;
+    }
+    let detail = |a: String| json!({"input": {"source": main, "files": files.iter().map(|(n, b)| format!("// ---- {n}\n{b}")).collect::<Vec<_>>(), "construct": construct, "depth": depth, "tail": tail}, "actual": a});
+    match analyze_with_files(&main, &files) {
+        Err(p) => out.push(Failure::new(format!("C03:include-chain:{}", panic_key(&p)), detail(format!("{}:{} {}", p.file, p.line, p.msg)))),
+        Ok(res) => {
+            let dbg = format!("{:?}", res.program());
+            let n_placeholders = dbg.matches("NullExpr").count() + dbg.matches("NullStmt").count();
+            let mut kinds = vec![];
+            all_semantic_errors(res.semantic_errors(), &mut kinds);
+            if n_placeholders > 0 && kinds.is_empty() {
+                out.push(Failure::new("C03:include-chain:unsupported-construct-without-diagnostic", detail(format!("{n_placeholders} placeholders in the graph, no semantic diagnostic in any list"))));
+            }
+            if res.symbol_table().verif_scope_depth() != 1 {
+                out.push(Failure::new("C03:include-chain:scope-left-open", detail(format!("depth {}", res.symbol_table().verif_scope_depth()))));
+            }
+        }
+    }
+    true
+}
+
+pub const C03_CHAIN_CONSTRUCTS: &[&str] = &[
+    "bool un = 1 < 2;",
+    "array[int, 3] ua;",
+    "int k; k += 1;",
+    "bool lg = true && false;",
+    "input array[int[8], 2] ia;",
+    "creg oc[2];",
+    "box { }",
+    "extern ef(int) -> int;",
+    "defcalgrammar \"openpulse\";",
+    "cal { }",
+    "int[8] e = {1, 2};",
+    "\"a string\";",
+    "(1, 2);",
+    "int never_declared_target; undeclared_thing = 1;",
+    "qubit dq; qubit dq;",
+];
+
+pub fn run_c03_includes(ctx: &RunCtx) {
+    // fixed family: every unsupported (or faulty) construct at the head or tail of the file at
+    // depth 0-3 of a chain of otherwise clean files
+    let mut jobs = vec![];
+    for c in C03_CHAIN_CONSTRUCTS {
+        for depth in 0..=3usize {
+            for tail in [false, true] {
+                jobs.push((*c, depth, tail));
+            }
+        }
+    }
+    ctx.par_units(jobs.len(), |i, st| {
+        let (c, depth, tail) = jobs[i];
+        let mut rep = CaseReport::default();
+        let judged = check_c03_chain(c, depth, tail, &mut rep.failures);
+        rep.discarded = !judged;
+        rep.class(format!("include-chain/depth{depth}"));
+        rep.nontrivial = Some(fnv64(format!("{c}{depth}{tail}").as_bytes()));
+        if i % 11 == 0 {
+            rep.sample = Some(format!("depth {depth}: {c}"));
+        }
+        ctx.eval_local("C03", st, rep);
+    });
+    let n = ctx.pick(3_000u64, 100_000u64);
+    run_arrangements(ctx, &["C03:"], "include-arrangement", n);
     cleanup_work();
 }
 
